@@ -28,4 +28,5 @@ func init() {
 	register("C09", "exploration", C09)
 	register("C03", "exploration", C03)
 	register("C12", "exploration", C12)
+	register("C13", "exploration", C13)
 }
